@@ -3,37 +3,57 @@
    time::timeout (cancel mode) and spawn + oneshot + biased select! (receiver first) + sleep
    (non-cancel mode)).
    Quantified over every configuration c (mode `cancel c`, timeout `tmo c i` of caller i: any
-   function, so fixed and per-request timeouts), every list of events (Call i = build the future,
-   Poll i = poll it once, Drop i, Advance d ms, Complete i o = the inner call of caller i
-   finishes with o in {ok, err, panic}; never completing = no Complete event) and any number of
-   concurrent callers.  `run c evs` is the state after evs; `arrival s i` is the instant of caller
-   i's first poll; the deadline is arrival + tmo c i.  Inner panics are outside the property: where a
-   statement needs it, the hypothesis `o <> OPanic` / `gate s i <> Some OPanic` says so.
+   function, so fixed and per-request timeouts; `gran c` = length of a timer tick in time units: 1
+   when the unit is the millisecond, 1000 when it is the microsecond), every list of events (Call i =
+   build the future, Poll i = poll it once, Drop i, Advance d, Complete i o = the inner call of
+   caller i finishes with o in {ok, err, panic}; never completing = no Complete event) and any number
+   of concurrent callers.  `run c evs` is the state after evs; `arrival s i` is the instant of caller
+   i's first poll; `deadline c i a` is the instant the timer of a call first polled at a fires: the
+   first timer tick at or after a + tmo c i (= a + tmo c i in the millisecond unit).  Inner panics
+   are outside the property: where a statement needs it, the hypothesis `o <> OPanic` /
+   `gate s i <> Some OPanic` says so.
+   Schedules: `polled_when_woken c i evs` - every event that leaves caller i's wake flag up is
+   followed, if by anything, by Poll i; `prompt` - that, and no wake-up is outstanding at the end;
+   `punctual c i evs` - no Advance jumps over the deadline of caller i (Proof/TimeLimiter.v).
+   The trace printed by run_script is, entry by entry, the observation of `step` on `run`
+   (C06_trace_is_run), so the statements below are statements about what the driver compares.
    Only statements, `exact`, and Print Assumptions. *)
 From TR Require Import Lib.Base Model.TimeLimiter Proof.TimeLimiter.
 
 (* The deadline is fixed by the FIRST POLL of the call future (not by call()): Call is the
    identity, the first poll records the instant, the record never changes afterwards, and a
-   pending call's timer deadline is exactly that instant plus the caller's timeout. *)
+   pending call's timer deadline is exactly `deadline` of that instant. *)
 Theorem C06_deadline_from_first_poll :
   forall (c : cfg) (evs : list ev) (i : nat),
     let s := run c evs in
     (cs s i = Created -> arrival s i = None /\ inner s i = INone) /\
     (forall a, arrival s i = Some a -> a <= now s /\ cs s i <> Created) /\
-    (forall dl, cs s i = Active dl -> exists a, arrival s i = Some a /\ dl = a + tmo c i) /\
+    (forall dl, cs s i = Active dl -> exists a, arrival s i = Some a /\ dl = deadline c i a) /\
     (cs s i = Created -> arrival (step_st c s (Poll i)) i = Some (now s)) /\
     (forall e a, arrival s i = Some a -> arrival (step_st c s e) i = Some a) /\
     (forall j, step_st c s (Call j) = s).
 Proof. exact deadline_from_first_poll. Qed.
 Print Assumptions C06_deadline_from_first_poll.
 
+(* The timer deadline is the caller's timeout counted from the first poll, rounded up to the timer
+   resolution: never before first poll + timeout, less than one tick after it, equal to it in the
+   millisecond unit; monotone in the instant of the first poll. *)
+Theorem C06_deadline_is_timer_tick :
+  forall (c : cfg) (i : nat) (a : Z),
+    a + tmo c i <= deadline c i a /\ deadline c i a < a + tmo c i + Z.max 1 (gran c) /\
+    (gran c <= 1 -> deadline c i a = a + tmo c i) /\
+    (forall b, a <= b -> deadline c i a <= deadline c i b).
+Proof. exact deadline_bounds. Qed.
+Print Assumptions C06_deadline_is_timer_tick.
+
 (* No poll, in any reachable state, answers Timeout before the caller's deadline. *)
 Theorem C06_no_timeout_before_deadline :
   forall (c : cfg) (evs : list ev) (i : nat),
     let s := run c evs in
     r (snd (step c s (Poll i))) = 3 -> gate s i <> Some OPanic ->
-    exists a, arrival (step_st c s (Poll i)) i = Some a /\ a + tmo c i <= now s.
-Proof. exact no_timeout_before_deadline. Qed.
+    exists a, arrival (step_st c s (Poll i)) i = Some a /\
+      a + tmo c i <= deadline c i a /\ deadline c i a <= now s.
+Proof. exact no_timeout_before_timer. Qed.
 Print Assumptions C06_no_timeout_before_deadline.
 
 (* Inner call finished before the deadline: the completion wakes the pending caller at once, and
@@ -56,7 +76,7 @@ Print Assumptions C06_result_if_before.
 (* The same for a state reached in any way: a pending call whose inner call has completed resolves
    with the inner outcome at its next poll, before, at or after the deadline (cancel mode: also
    at the first poll; non-cancel mode: the first poll cannot see the result, the spawned task has
-   not run yet). *)
+   not run yet - it leaves the caller woken, C06_overdue_or_ready_is_woken). *)
 Theorem C06_result_at_poll :
   forall (c : cfg) (evs : list ev) (i : nat) (o : outcome),
     let s := run c evs in
@@ -83,6 +103,33 @@ Theorem C06_timeout_if_after :
 Proof. exact timeout_if_after. Qed.
 Print Assumptions C06_timeout_if_after.
 
+(* The same two statements over ANY schedule (polls of this caller allowed in between).
+   Inner call not completing: every poll before the deadline leaves the call pending, the first
+   poll at/after the deadline answers Timeout, and nothing else ever resolves the call. *)
+Theorem C06_timeout_any_schedule :
+  forall (c : cfg) (i : nat) (dl : Z) (evs2 evs1 : list ev),
+    cs (run c evs1) i = Active dl -> gate (run c evs1) i = None ->
+    (forall e, In e evs2 -> e <> Drop i /\ forall o, e <> Complete i o) ->
+    let s2 := run c (evs1 ++ evs2) in
+    (cs s2 i = Active dl /\ gate s2 i = None) \/
+    (exists p q, evs2 = p ++ Poll i :: q /\ dl <= now (run c (evs1 ++ p)) /\
+       snd (step c (run c (evs1 ++ p)) (Poll i)) = timed_out /\ cs s2 i = Done).
+Proof. exact timeout_any_schedule. Qed.
+Print Assumptions C06_timeout_any_schedule.
+
+(* Inner call completed with ok / error while the call is pending: the call keeps the result until
+   its next poll, which returns it, however late; no schedule turns it into a Timeout. *)
+Theorem C06_result_any_schedule :
+  forall (c : cfg) (i : nat) (dl : Z) (o : outcome) (evs2 evs1 : list ev),
+    cs (run c evs1) i = Active dl -> gate (run c evs1) i = Some o -> o <> OPanic ->
+    (forall e, In e evs2 -> e <> Drop i) ->
+    let s2 := run c (evs1 ++ evs2) in
+    (cs s2 i = Active dl /\ gate s2 i = Some o /\ ~ In (Poll i) evs2) \/
+    (exists p q, evs2 = p ++ Poll i :: q /\ ~ In (Poll i) p /\
+       snd (step c (run c (evs1 ++ p)) (Poll i)) = result i o /\ cs s2 i = Done).
+Proof. exact result_any_schedule. Qed.
+Print Assumptions C06_result_any_schedule.
+
 Theorem C06_timer_wakes_at_deadline :
   forall (c : cfg) (evs : list ev) (i : nat) (dl d : Z),
     let s := run c evs in
@@ -91,13 +138,15 @@ Theorem C06_timer_wakes_at_deadline :
 Proof. exact timer_wakes. Qed.
 Print Assumptions C06_timer_wakes_at_deadline.
 
-(* Timeout at any poll at/after the deadline with the inner call unfinished (also a zero timeout
-   at the first poll); Pending before the deadline with the inner call unfinished. *)
+(* Timeout at any poll at/after the deadline with the inner call unfinished (also at the first poll
+   when the timer deadline is already reached: a zero timeout on a timer tick); Pending before the
+   deadline with the inner call unfinished. *)
 Theorem C06_timeout_at_poll :
   forall (c : cfg) (evs : list ev) (i : nat),
     let s := run c evs in
     gate s i = None ->
-    (exists dl, cs s i = Active dl /\ dl <= now s) \/ (cs s i = Created /\ tmo c i <= 0) ->
+    (exists dl, cs s i = Active dl /\ dl <= now s) \/
+    (cs s i = Created /\ deadline c i (now s) <= now s) ->
     snd (step c s (Poll i)) = timed_out /\ cs (step_st c s (Poll i)) i = Done.
 Proof. exact timeout_now. Qed.
 Print Assumptions C06_timeout_at_poll.
@@ -106,15 +155,19 @@ Theorem C06_pending_before_deadline :
   forall (c : cfg) (evs : list ev) (i : nat),
     let s := run c evs in
     gate s i = None ->
-    (exists dl, cs s i = Active dl /\ now s < dl) \/ (cs s i = Created /\ 0 < tmo c i) ->
+    (exists dl, cs s i = Active dl /\ now s < dl) \/
+    (cs s i = Created /\ now s < deadline c i (now s)) ->
     snd (step c s (Poll i)) = pending /\
     exists dl, cs (step_st c s (Poll i)) i = Active dl /\ now s < dl.
 Proof. exact pending_now. Qed.
 Print Assumptions C06_pending_before_deadline.
 
-(* A poll that finds both the inner result and the elapsed timer (in particular the exact tie
-   t_inner = deadline, and a late poll of a call whose result was ready in time): the inner
-   outcome wins, in both modes. *)
+(* A poll that finds both the inner result and the elapsed timer (the exact tie t_inner = deadline,
+   a late poll of a call whose result was ready in time, and also a late poll of a call whose
+   inner call finished after the deadline): the inner outcome wins, in both modes.  This is what
+   the code does; for the tie and for a completion after the deadline it is more than the property
+   asks (it leaves the tie open and wants Timeout for the latter, which a prompt schedule delivers:
+   C06_timeout_exactly_at_deadline) - the monitor accepts either answer there. *)
 Theorem C06_tie_result_wins :
   forall (c : cfg) (evs : list ev) (i : nat) (o : outcome) (dl : Z),
     let s := run c evs in
@@ -123,6 +176,85 @@ Theorem C06_tie_result_wins :
     cs (step_st c s (Poll i)) i = Done.
 Proof. exact tie_either. Qed.
 Print Assumptions C06_tie_result_wins.
+
+(* ---- "by the deadline": the composite statements ---- *)
+
+(* In every reachable state a pending call that is overdue, or whose inner call has completed (with
+   any outcome), has a wake-up outstanding: the flag set by the timer / by the completion survives
+   every event except this caller's own poll or drop. *)
+Theorem C06_overdue_or_ready_is_woken :
+  forall (c : cfg) (evs : list ev) (i : nat) (dl : Z),
+    let s := run c evs in
+    cs s i = Active dl -> (dl <= now s \/ gate s i <> None) -> woken s i = true.
+Proof. exact overdue_or_ready_is_woken. Qed.
+Print Assumptions C06_overdue_or_ready_is_woken.
+
+(* Any schedule: once the deadline of a call that was polled at least once and not cancelled has
+   been reached, or its inner call has completed, the call is resolved or its caller has been told
+   to poll it. *)
+Theorem C06_resolved_or_woken_by_deadline :
+  forall (c : cfg) (evs : list ev) (i : nat) (a : Z),
+    let s := run c evs in
+    arrival s i = Some a -> ~ In (Drop i) evs ->
+    (deadline c i a <= now s \/ gate s i <> None) ->
+    cs s i = Done \/ (cs s i = Active (deadline c i a) /\ woken s i = true).
+Proof. exact resolved_or_woken. Qed.
+Print Assumptions C06_resolved_or_woken_by_deadline.
+
+(* A caller that is polled whenever it is woken: its call is resolved by the deadline, and as soon
+   as the inner call has completed. *)
+Theorem C06_by_deadline :
+  forall (c : cfg) (evs : list ev) (i : nat) (a : Z),
+    let s := run c evs in
+    prompt c i evs -> arrival s i = Some a -> ~ In (Drop i) evs ->
+    (deadline c i a <= now s \/ gate s i <> None) -> cs s i = Done.
+Proof. exact by_deadline. Qed.
+Print Assumptions C06_by_deadline.
+
+(* Conversely a call that is pending with no wake-up outstanding is before its deadline and its
+   inner call has not completed. *)
+Theorem C06_pending_is_justified :
+  forall (c : cfg) (evs : list ev) (i : nat) (dl : Z),
+    let s := run c evs in
+    cs s i = Active dl -> woken s i = false -> now s < dl /\ gate s i = None.
+Proof. exact pending_is_justified. Qed.
+Print Assumptions C06_pending_is_justified.
+
+(* Prompt polling and a clock that stops at the deadline: a pending call is never past its
+   deadline, so a Timeout answer comes exactly AT the deadline (or at the first poll when the
+   deadline is not after it: zero timeout), and only if the inner call had not finished by then. *)
+Theorem C06_pending_not_overdue :
+  forall (c : cfg) (i : nat) (evs : list ev),
+    polled_when_woken c i evs -> punctual c i evs ->
+    forall dl, cs (run c evs) i = Active dl -> now (run c evs) <= dl.
+Proof. exact pending_not_overdue. Qed.
+Print Assumptions C06_pending_not_overdue.
+
+Theorem C06_timeout_exactly_at_deadline :
+  forall (c : cfg) (evs : list ev) (i : nat),
+    let s := run c evs in
+    polled_when_woken c i evs -> punctual c i evs ->
+    r (snd (step c s (Poll i))) = 3 -> gate s i <> Some OPanic ->
+    exists a, arrival (step_st c s (Poll i)) i = Some a /\
+      now s = Z.max a (deadline c i a) /\
+      (forall o, inner s i <> IFinished o) /\ (cs s i <> Created -> gate s i = None).
+Proof. exact timeout_exactly_at_deadline. Qed.
+Print Assumptions C06_timeout_exactly_at_deadline.
+
+(* Prompt polling: the inner result is returned by the poll that immediately follows the completion
+   event (no time passes in between), or - inner call completed before the future was first
+   polled - by the first poll (cancel mode) / the poll right after the first poll (non-cancel mode). *)
+Theorem C06_result_at_once :
+  forall (c : cfg) (evs : list ev) (i : nat),
+    let s := run c evs in
+    polled_when_woken c i (evs ++ [Poll i]) ->
+    (r (snd (step c s (Poll i))) = 1 \/ r (snd (step c s (Poll i))) = 2) ->
+    cs s i = Created \/
+    (exists evs' o, evs = evs' ++ [Complete i o] /\ gate (run c evs') i = None /\
+                    now (run c evs') = now s) \/
+    (exists evs', evs = evs' ++ [Poll i] /\ cs (run c evs') i = Created /\ now (run c evs') = now s).
+Proof. exact result_at_once. Qed.
+Print Assumptions C06_result_at_once.
 
 (* Cancel mode: the inner future exists exactly while the call is pending; the poll that returns
    Timeout drops it (at/after the deadline), and so does cancelling the call. *)
@@ -137,6 +269,19 @@ Theorem C06_cancel_drops_at_deadline :
     ((exists dl, cs s i = Active dl) -> inner (step_st c s (Drop i)) i = IDropped).
 Proof. exact cancel_drops. Qed.
 Print Assumptions C06_cancel_drops_at_deadline.
+
+(* Cancel mode, "dropped AT the deadline": an inner call that is alive belongs to a pending call; with
+   no wake-up outstanding it is strictly before its deadline (any schedule); under a prompt, punctual
+   schedule no inner call is alive after its deadline. *)
+Theorem C06_cancel_no_inner_after_deadline :
+  forall (c : cfg) (evs : list ev) (i : nat),
+    let s := run c evs in
+    cancel c = true -> inner s i = IRunning ->
+    exists a, arrival s i = Some a /\ cs s i = Active (deadline c i a) /\
+      (woken s i = false -> now s < deadline c i a) /\
+      (polled_when_woken c i evs -> punctual c i evs -> now s <= deadline c i a).
+Proof. exact cancel_no_inner_after_deadline. Qed.
+Print Assumptions C06_cancel_no_inner_after_deadline.
 
 (* Non-cancel mode: the first poll starts the inner call; from then on no event other than its own
    completion changes it - not a Timeout, not dropping the call future: the limiter never drops it
@@ -165,3 +310,16 @@ Theorem C06_calls_independent :
     snd (step c s (Poll i)) = snd (step c s' (Poll i)).
 Proof. exact calls_independent. Qed.
 Print Assumptions C06_calls_independent.
+
+(* What the driver compares: the k-th group of four numbers in the trace of a script is the
+   observation of `step` in the state `run` reaches after the first k events, followed by the wake
+   mask and the inner-call states of the state after the event. *)
+Theorem C06_trace_is_run :
+  forall (sc : list Z) (pre : list ev) (e : ev) (rest : list ev),
+    let c := cfg_of sc in let s := run c pre in
+    events_of sc = pre ++ e :: rest ->
+    firstn 4 (skipn (4 * length pre) (run_script sc)) =
+    [r (snd (step c s e)); val (snd (step c s e));
+     wake_mask (run c (pre ++ [e])) (callers_of sc); inner_vec (run c (pre ++ [e])) (callers_of sc)].
+Proof. exact script_trace_is_run. Qed.
+Print Assumptions C06_trace_is_run.
